@@ -36,7 +36,7 @@ ASSUMPTIONS = [
 
 STATE_QUERIES = {"get_state": "SwitcherStateResponse", "get_shutter_state": "SwitcherShutterStateResponse", "get_breeze_state": "SwitcherThermostatStateResponse"}
 GENERIC = ["control_on", "control_off", "control_timer", "set_auto_shutdown", "set_device_name", "delete_schedule", "create_schedule",
-           "stop", "set_position", "breeze_main", "breeze_swing", "breeze_update"]
+           "stop", "set_position", "breeze_main", "breeze_swing", "breeze_update", "breeze_swing_only", "breeze_plain_swing_only", "breeze_temp_only"]
 ALL_OPS = list(STATE_QUERIES) + GENERIC + ["get_schedules"]
 QV = [0x00, 0x01, 0x02, 0x05, 0x0a, 0x0f, 0x10, 0x30, 0x39, 0x41, 0x66, 0x7f, 0x80, 0xc3, 0xfe, 0xff]
 FILLS = [0x00, 0xff, 0x30, 0x80]
@@ -244,7 +244,7 @@ def judge(case, out, writes, delivered, res):
     if out[0] == "exc":
         e = out[1]
         last = delivered[nsteps - 1] if 0 < nsteps <= len(delivered) else b""
-        embedded_state = op.startswith("breeze_") and nsteps == 2  # the thermostat state read inside control
+        embedded_state = op.startswith("breeze_") and nsteps == 2 and expected_shape(op)[1] == "get_state2"  # the thermostat state read inside control
         if type(e) is RuntimeError and (last is None or embedded_state or any(d is None for d in delivered[:nsteps])):
             res.outcome((op, "RuntimeError"))
             return True
